@@ -426,6 +426,22 @@ class Nested1:
     class Nested2:
         class Nested3:
             leaf: "Nested1.Nested2"
+class ConcreteA(Abstract):
+    def must(self) -> int: return 1
+    @property
+    def must_prop(self) -> int: return 1
+    def with_body(self) -> int: return 1
+    def ov_abs(self, x: Any) -> Any: ...
+class ConcreteB(ConcreteA): ...
+class ConcreteC(ConcreteA): ...
+joined_class_objects = [ConcreteB, ConcreteC]            # CallableType.from_type_type via join
+abstract_class_objects = {{"b": ConcreteA, "c": ConcreteB}}
+class EllipsisBase(GenericP[..., int]): ...               # Parameters.is_ellipsis_args
+ellipsis_val: GenericP[..., str]
+@dataclass(order=True)
+class OrderedWithCustomLt:
+    name: str = "n"
+    def __lt__(self, other: "OrderedWithCustomLt") -> bool: ...   # reported; generated one kept as '__lt__-redefinition'
 IntBox = Box[int]
 box_inst = Box(1)
 box_of_box: Box[Box[Optional[Movie]]]
@@ -487,6 +503,72 @@ class Variance[T_in, T_out]:
 '''
 
 
+def bounds_module(variant: int, rng: random.Random) -> str:
+    """Values at the boundaries of the binary format's variable-length encodings (ints, string/list lengths),
+    as Final values, Literal types, long tuples/unions/signatures, deep nesting; plus unusual-but-legal text."""
+    out = ["from typing import Final, Literal, Union, Callable, TypedDict, NamedTuple, Optional", "import enum", ""]
+    ints: list[int] = []
+    for k in range(0, 71):
+        for d in (-1, 0, 1):
+            ints += [2 ** k + d, -(2 ** k) + d]
+    ints += [10 ** 30, -10 ** 30, 0] + [rng.randrange(-2 ** 70, 2 ** 70) for _ in range(20)] + [rng.randrange(-300, 300) for _ in range(20)]
+    seen: set[int] = set()
+    for v in ints:
+        if v in seen:
+            continue
+        seen.add(v)
+        n = f"{'m' if v < 0 else 'p'}{abs(v)}"
+        out.append(f"I_{n}: Final = {v}")
+        out.append(f"L_{n}: Literal[{v}]")
+    lens = [0, 1, 2, 63, 64, 127, 128, 129, 255, 256, 257, 4095, 4096, 16383, 16384, 16385, 65535, 65536, 70001, rng.randrange(3, 3000)]
+    alphabets = ["a", "\u00e9", "\u4e2d", "\U0001f600"]
+    for ln in lens:
+        for ai, ch in enumerate(alphabets if ln <= 4096 else alphabets[:2]):
+            out.append(f'S_{ln}_{ai}: Final = "{ch * ln}"')
+            if ln <= 300:
+                out.append(f'LS_{ln}_{ai}: Literal["{ch * ln}"]')
+    out.append('ESC: Final = "tab\\t nl\\n quote\\" backslash\\\\ nul\\x00 bell\\x07 del\\x7f"')
+    out.append('BYTES_LIT: Literal[b"\\x00\\xff raw"]')
+    for name, val in [("F_zero", "0.0"), ("F_negzero", "-0.0"), ("F_big", "1.7976931348623157e308"), ("F_tiny", "5e-324"),
+                      ("F_inf", "1e999"), ("F_neginf", "-1e999"), ("F_third", "0.1"), ("C_j", "1j"), ("C_mixed", "2.5-3j")]:
+        out.append(f"{name}: Final = {val}")
+    for n in (1, 2, 127, 128, 255, 256, 300):
+        out.append(f"T_{n} = ({', '.join(str(i % 7) for i in range(n))},)")
+        out.append(f"U_{n}: Union[{', '.join(f'Literal[{i}]' for i in range(n))}]")
+        out.append(f"def f_{n}({', '.join(f'a{i}: int = 0' for i in range(n))}) -> None: ...")
+        out.append(f"class K_{n}:\n" + "\n".join(f"    m{i}: int = {i}" for i in range(n)))
+        out.append(f"TD_{n} = TypedDict('TD_{n}', {{{', '.join(repr('k%d' % ((i * 7919) % 1000 + 1000 * i)) + ': int' for i in range(n))}}})")
+        out.append(f"E_{n} = enum.Enum('E_{n}', {[f'v{i}' for i in range(n)]!r})")
+    depth = 40
+    out.append("deep: " + "list[" * depth + "int" + "]" * depth)
+    out.append("deep_cb: " + "Callable[[int], " * 30 + "int" + "]" * 30)
+    out.append("deep_opt: " + "Optional[tuple[int, " * 25 + "None" + "]]" * 25)
+    out.append("\u00fcnic\u00f6de_name: Final = 1")
+    out.append("class \u00c4rger:\n    \u00e4ttr: 'Optional[\u00c4rger]' = None")
+    out.append("_: int = 0\n__: int = 0\n__dunder__: int = 0\n_private_name: int = 0")
+    return "\n".join(out) + "\n"
+
+
+NESTING = {
+    "c11deep/__init__.py": "from c11deep.er import mod as mod\nfrom c11deep.er.mod import Out\nfrom .er import er\n",
+    "c11deep/er/__init__.py": "er = 1\nfrom . import mod\n",
+    "c11deep/er/mod.py": ("import c11deep\nclass Out:\n    class In1:\n        class In2:\n            class In3:\n                leaf: 'Out.In1.In2' = None  # type: ignore\n"
+                          "                def back(self) -> 'c11deep.er.mod.Out.In1': ...\n"
+                          "def factory():\n    class Local:\n        x: int = 1\n        def me(self) -> 'Local': return self\n    return Local()\n"
+                          "made = factory()\nalias4 = Out.In1.In2.In3\nalias_val: Out.In1.In2.In3\n"
+                          "def two():\n    class Local:\n        y: str = ''\n    return Local\nlocal_cls = two()\n"),
+    "c11deep/user.py": ("from c11deep import Out, mod, er\nfrom c11deep.er.mod import made, alias4, local_cls, factory\nimport c11deep.er.mod as m2\n"
+                        "a = Out.In1.In2.In3()\nb = made\nc = alias4().back()\nd = local_cls()\ne = m2.Out.In1\nf = factory().me()\n"
+                        "class Sub(Out.In1.In2.In3): ...\n"),
+}
+
+
+# legal Python text that is not encodable as UTF-8: kept in a package of its own so that a failure to write it does
+# not hide the other modules of a build
+SURROGATES = {"c11sur.py": ('from typing import Final, Literal\nLONE: Final = "\\ud800 tail"\nPAIR_HALVES: Final = "\\udc80\\ud800"\n'
+                            'def f(x: str = "\\udcff") -> None: ...\nLIT: Literal["\\udfff"]\n')}
+
+
 def package(variant: int, rng: random.Random) -> dict[str, str]:
     fields = [("title", "Required[str]"), ("year", "int"), ("tags", "ReadOnly[list[str]]"),
               ("rating", "NotRequired[float]"), ("alpha", "bytes"), ("zz_last", "bool")]
@@ -510,4 +592,6 @@ def package(variant: int, rng: random.Random) -> dict[str, str]:
         "c11pkg/sub.py": "import c11pkg\nfrom c11main import Base\n__all__ = ['star_exported']\ndef leaf(b: Base) -> 'c11pkg.sub.Cyc': ...\nstar_exported = 1\n_private = 2\nclass Cyc(Base):\n    up: 'c11pkg.sub.Cyc'\n",
         "c11stub.pyi": "from typing import overload, Any\nx: int\ndef f(a, b=...): ...\nclass C:\n    def m(self) -> None: ...\n    y = ...  # type: Any\n@overload\ndef g(a: int) -> int: ...\n@overload\ndef g(a: str) -> str: ...\ndef __getattr__(name: str) -> Any: ...\n",
     }
+    out["c11bounds.py"] = bounds_module(variant, rng)
+    out.update(NESTING)
     return out
